@@ -44,6 +44,47 @@ class Scripted(object):
     def randint(self, a, b):
         return a + self._choose(b - a + 1)
 
+    # The rest of the random module's surface, so that an implementation that draws its tie-breaks another way
+    # (choice, shuffle, sample, ...) is enumerated just the same; anything not listed falls through to the real
+    # module (sampled instead of enumerated - never an error of the harness).
+    def randrange(self, start, stop=None, step=1):
+        if stop is None:
+            start, stop = 0, start
+        opts = range(start, stop, step)
+        return opts[self._choose(len(opts))]
+
+    def choice(self, seq):
+        return seq[self._choose(len(seq))]
+
+    def shuffle(self, x):
+        for i in reversed(range(1, len(x))):
+            j = self._choose(i + 1)
+            x[i], x[j] = x[j], x[i]
+
+    def sample(self, population, k):
+        pool = list(population)
+        out = []
+        for _ in range(k):
+            out.append(pool.pop(self._choose(len(pool))))
+        return out
+
+    def choices(self, population, weights=None, cum_weights=None, k=1):
+        return [population[self._choose(len(population))] for _ in range(k)]
+
+    def uniform(self, a, b):
+        return a + (b - a) * self.random()
+
+    def getrandbits(self, k):
+        if k <= 3:
+            return self._choose(2 ** k)
+        return (0, 1, 2 ** k - 1, 2 ** (k - 1))[self._choose(4)]
+
+    def seed(self, *a, **k):
+        pass
+
+    def __getattr__(self, name):
+        return getattr(random, name)
+
     def outcomes(self, fn):
         """call fn() once for every combination of choices; yields its results"""
         self.script = []
